@@ -228,6 +228,19 @@ Proof.
            roundtrip_concrete E0 E0 e0 e0 e0 e0_type e0_ok e0_rt md md_nil md_is_nil H1 H2 h G (ops_ok_OpsIn E0 md e0_ok h A)).
 Qed.
 
+(* the nodes of that document are what `self[node]._to_serial(Node(rekey[parent]))` returns: C05's op_to_serial of the
+   node's operation with the renumbered parent (the root: itself) in the parent field; keeping the parent beside a
+   parent-less encoding (SerialHugr.snode) loses nothing *)
+Theorem C02_concrete_document_nodes :
+  forall (md : Type) (md_nil : md) (md_is_nil : md -> bool) (h : hugr (op E0) md) s,
+    guard_b (c_vports E0 E0 e0) (c_sports E0 E0 e0) (c_has_order E0 E0 e0) h = true ->
+    to_serial (c_enc E0 E0 e0) (c_ndp E0) md_is_nil h = Some s ->
+    forall k i, nth_error (lives h) k = Some i ->
+      exists nd, get_node h i = Some nd /\
+        option_map (sop_of_snode E0) (nth_error (s_nodes s) k) =
+          Some (op_to_serial E0 E0 e0 (n_op nd) (N.of_nat (rank h (match n_parent nd with Some p => p | None => i end)))).
+Proof. exact (fun md md_nil md_is_nil => concrete_doc_nodes E0 E0 e0 md md_nil md_is_nil). Qed.
+
 (* C02 o C05 at ANY nesting depth n of function-valued constants (HT md n = the HUGRs embedded in the constants:
    Empty_set at 0, HUGRs over operations of depth n-1 otherwise; okT = this theorem's own premises on the embedded
    HUGRs, as a boolean, plus a root with an inner signature) *)
@@ -416,6 +429,7 @@ Proof. exact builder_history_example. Qed.
 
 Print Assumptions C02_concrete_ops_hypotheses_discharged.
 Print Assumptions C02_roundtrip_concrete_ops.
+Print Assumptions C02_concrete_document_nodes.
 Print Assumptions C02_roundtrip_concrete_ops_any_depth.
 Print Assumptions C02_concrete_ops_example.
 Print Assumptions C02_function_constant_example.
